@@ -1,7 +1,8 @@
 ID = "C11"
 CLUSTER = "heap"
 EXTRACT_V = "ExtractHeap.v"
-MODEL_DEPS = ["Base/Bytes.v", "Base/GoSem.v", "Gen/FromGo.v", "DM/Value.v", "Heap/GoMem.v", "Heap/BasicHeap.v", "Heap/Script.v"]
+MODEL_DEPS = ["Base/Bytes.v", "Base/GoSem.v", "Gen/FromGo.v", "DM/Value.v", "Heap/GoMem.v", "Heap/BasicHeap.v", "Heap/Script.v",
+              "Heap/Footprint.v", "Heap/Conc.v"]   # the extraction file is shared with C20
 DRIVER = "c11_driver"
 HARNESS = "c11"
 COUNTS = {"quick": 3000, "thorough": 60000}
